@@ -12,7 +12,7 @@ def roots(rng, tier):
         out.append(lambda kind=kind: _single(kind, False))
         out.append(lambda kind=kind: _single(kind, True))
     for ck in shapes.KINDS:
-        for n in (1, 2, 3, 4):
+        for n in (1, 2, 3, 4, 6):
             for fl in ("M", "R", "X"):
                 out.append(lambda ck=ck, n=n, fl=fl: _coll(rng, ck, n, fl))
     nn = 30 if tier == "quick" else 200
@@ -53,7 +53,7 @@ def gen(tier, rng, n_quick=1800):
     for mk in facts:
         b0, root0 = mk()
         locks = b0.locks_of[root0]
-        if not locks or len(locks) > 5:
+        if not locks or len(locks) > 6:
             continue
         nl = len(locks)
         modes = ["ex"] + (["sh"] if b0.sharable[root0] else [])
